@@ -324,6 +324,9 @@ func (e *Engine) runPath(fn *ssa.Function, harness string, prefix []Decision, pf
 		r.call(nil, fn.Pos(), fn, nil)
 	})
 	r.sched.loop(g0)
+	if r.sess != nil {
+		r.sess.close()
+	}
 	r.res.Decisions = r.trace
 	r.res.SymBranches = r.symBranches
 	r.res.Steps = r.steps
